@@ -19,8 +19,10 @@ import (
 
 	"github.com/WuKongIM/WuKongIM/internal/verifh/vh"
 	"github.com/WuKongIM/WuKongIM/pkg/db/internal/dberrors"
+	"github.com/WuKongIM/WuKongIM/pkg/db/internal/engine"
 	"github.com/WuKongIM/WuKongIM/pkg/db/message"
 	channel "github.com/WuKongIM/WuKongIM/pkg/db/message/channelcompat"
+	"github.com/cockroachdb/pebble/v2/vfs"
 )
 
 // ---- input -------------------------------------------------------------------
@@ -32,7 +34,7 @@ type Rec struct {
 	Uid   string `json:"uid,omitempty"`
 	Pl    string `json:"pl,omitempty"` // hex payload
 	Ts    int64  `json:"ts"`
-	Flags uint8  `json:"fl,omitempty"`  // compat appends only (FramerFlags)
+	Flags uint8  `json:"fl,omitempty"`   // compat appends only (FramerFlags)
 	RIdx  uint64 `json:"ridx,omitempty"` // compat: channel.Record.Index (0 = unset)
 	RID   uint64 `json:"rid,omitempty"`  // compat: channel.Record.ID (0 = unset)
 }
@@ -50,6 +52,7 @@ type Ep struct {
 //	append  ChannelLog.Append(Recs, {Mode, Base})
 //	apply   ChannelLog.ApplyFetch({Base, Recs, Ck, Ep})
 //	capp    ChannelStore.Append / AppendServerAllocated / AppendTrusted (Mode 0/1/2) of compat records
+//	cbatch  message.StoreAppendBatch(Items): non-exact appends to several channels in ONE commit request
 //	trunc   ChannelLog.TruncateFrom(A)
 //	ctrunc  ChannelStore.Truncate(A)
 //	trim    ChannelLog.TrimPrefixThroughLimit(A, {MaxMessages: B, MaxBytes: D})
@@ -68,24 +71,34 @@ type Ep struct {
 //	ret     ChannelLog.LoadRetentionState
 //	lck     ChannelLog.LoadCheckpoint
 //	hist    ChannelLog.LoadHistory
+type Item struct {
+	C    int   `json:"c"`
+	Mode uint8 `json:"mode,omitempty"` // 0 strict, 1 server-allocated ids
+	Recs []Rec `json:"recs,omitempty"`
+}
+
 type Op struct {
-	K    string `json:"k"`
-	C    int    `json:"c"`
-	Mode uint8  `json:"mode,omitempty"`
-	Base uint64 `json:"base,omitempty"`
-	Recs []Rec  `json:"recs,omitempty"`
-	Ck   *Ck    `json:"ck,omitempty"`
-	Ep   *Ep    `json:"ep,omitempty"`
-	A    uint64 `json:"a,omitempty"`
-	B    int64  `json:"b,omitempty"`
-	D    int64  `json:"d,omitempty"`
-	Cno  string `json:"cno,omitempty"`
-	Uid  string `json:"uid,omitempty"`
+	Items []Item `json:"items,omitempty"` // cbatch: message.StoreAppendBatch over several channels (one physical batch)
+	K     string `json:"k"`
+	C     int    `json:"c"`
+	Mode  uint8  `json:"mode,omitempty"`
+	Base  uint64 `json:"base,omitempty"`
+	Recs  []Rec  `json:"recs,omitempty"`
+	Ck    *Ck    `json:"ck,omitempty"`
+	Ep    *Ep    `json:"ep,omitempty"`
+	A     uint64 `json:"a,omitempty"`
+	B     int64  `json:"b,omitempty"`
+	D     int64  `json:"d,omitempty"`
+	Cno   string `json:"cno,omitempty"`
+	Uid   string `json:"uid,omitempty"`
 }
 
 // Input is one history over the fixed channel table below.
 type Input struct {
 	Ops []Op `json:"ops"`
+	// Compact suppresses the per-mutation dumps (long histories: results, explicit
+	// reads and the final physical keys still tie the model).
+	Compact bool `json:"compact,omitempty"`
 }
 
 // The three channels of every history.  Keys "a" / "ab" are prefix related on
@@ -131,6 +144,8 @@ func ErrClass(err error) uint64 {
 // earlier history is visible to a later one (the global message-id index is
 // shared by all channels of one database).
 type Env struct {
+	// FS, when set, is the (crash-simulating) file system Pebble runs on; nil = the real disk.
+	FS     vfs.FS
 	dir    string
 	eng    *message.Engine
 	uses   int
@@ -175,11 +190,59 @@ func newEnv() *Env {
 }
 
 func (e *Env) open() {
+	if e.FS != nil {
+		phys, err := engine.VerifOpenFS(e.dir, message.VerifMessageEngineOptions(), e.FS)
+		if err != nil {
+			panic(fmt.Sprintf("engine.VerifOpenFS: %v", err))
+		}
+		e.eng = message.VerifNewEngine(phys)
+		return
+	}
 	eng, err := message.Open(e.dir)
 	if err != nil {
 		panic(fmt.Sprintf("message.Open: %v", err))
 	}
 	e.eng = eng
+}
+
+// NewEnvOnFS opens a fresh database on fs (C09); the caller owns its lifetime.
+func NewEnvOnFS(fs vfs.FS) *Env {
+	e := &Env{FS: fs, dir: "db", hist: 1, uses: 1}
+	e.open()
+	return e
+}
+
+// Close closes the database of an env created by NewEnvOnFS.
+func (e *Env) Close() { e.closeDB() }
+
+// RecoverFS opens the database found on fs (a crash clone), decodes its keys in
+// the terms of history e and reads every channel's LEO through the API.
+func (e *Env) RecoverFS(fs vfs.FS) (kv []KVEnt, leos []uint64, err error) {
+	phys, err := engine.VerifOpenFS(e.dir, message.VerifMessageEngineOptions(), fs)
+	if err != nil {
+		return nil, nil, err
+	}
+	eng := message.VerifNewEngine(phys)
+	defer eng.Close()
+	raw, err := eng.VerifDB().VerifDumpKV(e.AllKeys())
+	if err != nil {
+		return nil, nil, err
+	}
+	kv = e.KVOf(raw)
+	SortKV(kv)
+	for c := 0; c < NChans; c++ {
+		l, err := eng.VerifDB().Channel(e.key(c), e.chID(c))
+		if err != nil {
+			return nil, nil, err
+		}
+		leo, err := l.LEO(context.Background())
+		_ = l.Close()
+		if err != nil {
+			return nil, nil, err
+		}
+		leos = append(leos, leo)
+	}
+	return kv, leos, nil
 }
 
 func (e *Env) destroy() {
@@ -384,6 +447,12 @@ func (o Out) Coq() string {
 			return "(XTriple None)"
 		}
 		return vh.App("XTriple", vh.Some("("+vh.N(o.N[0])+", "+vh.N(o.N[1])+", "+vh.N(o.N[2])+")"))
+	case "XBatch": // per item: (err, base, last)
+		items := make([]string, 0, len(o.N)/3)
+		for i := 0; i+2 < len(o.N); i += 3 {
+			items = append(items, "("+vh.N(o.N[i])+", "+vh.N(o.N[i+1])+", "+vh.N(o.N[i+2])+")")
+		}
+		return vh.App("XBatch", vh.List(items))
 	case "XPairs":
 		items := make([]string, 0, len(o.N)/2)
 		for i := 0; i+1 < len(o.N); i += 2 {
@@ -394,13 +463,21 @@ func (o Out) Coq() string {
 	panic("unknown out kind " + o.Kind)
 }
 
-// Dump is the state of one channel as the read API shows it.
+// Dump is the state of one channel as the read API shows it: the log end, every
+// stored row in compact form (seq, id, payload hash) and, after a successful
+// append, the complete rows of the appended range.
 type Dump struct {
 	C      int    `json:"c"`
 	LeoErr uint64 `json:"leo_err,omitempty"`
 	Leo    uint64 `json:"leo"`
 	RdErr  uint64 `json:"rd_err,omitempty"`
 	Rows   []Msg  `json:"rows,omitempty"`
+	NewErr uint64 `json:"new_err,omitempty"`
+	New    []Msg  `json:"new,omitempty"`
+}
+
+func coqCompact(m Msg) string {
+	return "(" + vh.N(m.Seq) + ", " + vh.N(m.ID) + ", " + vh.N(m.Hash) + ")"
 }
 
 func (d Dump) Coq() string {
@@ -408,14 +485,19 @@ func (d Dump) Coq() string {
 	if d.LeoErr != 0 {
 		leo = vh.App("inr", vh.N(d.LeoErr))
 	}
-	rows := vh.App("inl", CoqMsgs(d.Rows))
+	rows := vh.App("inl", vh.ListOf(d.Rows, coqCompact))
 	if d.RdErr != 0 {
 		rows = vh.App("inr", vh.N(d.RdErr))
 	}
-	return vh.App("D", vh.N(uint64(d.C)), leo, rows)
+	news := vh.App("inl", CoqMsgs(d.New))
+	if d.NewErr != 0 {
+		news = vh.App("inr", vh.N(d.NewErr))
+	}
+	return vh.App("D", vh.N(uint64(d.C)), leo, rows, news)
 }
 
-func (e *Env) DumpChan(c int) Dump {
+// DumpChan reads LEO and Read(1, {}); when newCount > 0 also Read(newFrom, {Limit: newCount}).
+func (e *Env) DumpChan(c int, newFrom uint64, newCount int) Dump {
 	ctx := context.Background()
 	l := e.Lease(c)
 	d := Dump{C: c}
@@ -429,6 +511,17 @@ func (e *Env) DumpChan(c int) Dump {
 		d.RdErr = ErrClass(err)
 	} else {
 		d.Rows = e.msgs(ms)
+		for i := range d.Rows { // compact: only seq, id, hash are printed
+			d.Rows[i] = Msg{Seq: d.Rows[i].Seq, ID: d.Rows[i].ID, Hash: d.Rows[i].Hash}
+		}
+	}
+	if newCount > 0 {
+		ns, err := l.Read(ctx, newFrom, message.ReadOptions{Limit: newCount})
+		if err != nil {
+			d.NewErr = ErrClass(err)
+		} else {
+			d.New = e.msgs(ns)
+		}
 	}
 	return d
 }
@@ -489,7 +582,7 @@ func (e *Env) compatRecords(c int, rs []Rec) []channel.Record {
 
 func IsMutation(k string) bool {
 	switch k {
-	case "append", "apply", "capp", "trunc", "ctrunc", "trim", "ckpt", "ckptm", "release":
+	case "append", "apply", "capp", "cbatch", "trunc", "ctrunc", "trim", "ckpt", "ckptm", "release":
 		return true
 	}
 	return false
@@ -543,6 +636,25 @@ func (e *Env) Exec(op Op) (Out, []Dump) {
 		} else {
 			out = Out{Kind: "XN", N: []uint64{base}}
 		}
+	case "cbatch":
+		items := make([]message.AppendBatchItem, len(op.Items))
+		for i, it := range op.Items {
+			ci := it.C
+			if ci < 0 || ci >= NChans {
+				ci = 0
+			}
+			items[i] = message.AppendBatchItem{Store: e.Store(ci), Records: e.compatRecords(ci, it.Recs), ServerAllocatedMessageIDs: it.Mode == 1}
+		}
+		results := message.StoreAppendBatch(ctx, items)
+		o := Out{Kind: "XBatch"}
+		for _, r := range results {
+			if r.Err != nil {
+				o.N = append(o.N, ErrClass(r.Err), 0, 0)
+			} else {
+				o.N = append(o.N, 0, r.BaseOffset, r.LastOffset)
+			}
+		}
+		out = o
 	case "trunc":
 		if err := e.Lease(c).TruncateFrom(ctx, op.A); err != nil {
 			fail(err)
@@ -679,12 +791,22 @@ func (e *Env) Exec(op Op) (Out, []Dump) {
 	}
 	var dumps []Dump
 	switch {
-	case op.K == "reopen":
+	case op.K == "reopen" || op.K == "cbatch":
 		for i := 0; i < NChans; i++ {
-			dumps = append(dumps, e.DumpChan(i))
+			dumps = append(dumps, e.DumpChan(i, 0, 0))
 		}
 	case IsMutation(op.K):
-		dumps = append(dumps, e.DumpChan(c))
+		var from uint64
+		var count int
+		if out.Err == 0 {
+			switch {
+			case out.Kind == "XApp" && out.N[2] > 0:
+				from, count = out.N[0], int(out.N[2])
+			case op.K == "capp" && len(op.Recs) > 0:
+				from, count = out.N[0]+1, len(op.Recs)
+			}
+		}
+		dumps = append(dumps, e.DumpChan(c, from, count))
 	}
 	return out, dumps
 }
@@ -722,6 +844,10 @@ func CoqOp(op Op) string {
 		return vh.App("OApply", c, vh.N(op.Base), vh.ListOf(op.Recs, coqRec), coqCk(op.Ck), coqEp(op.Ep))
 	case "capp":
 		return vh.App("OCApp", c, vh.N(uint64(op.Mode)), vh.ListOf(op.Recs, coqRec))
+	case "cbatch":
+		return vh.App("OCBatch", vh.ListOf(op.Items, func(it Item) string {
+			return "(" + vh.N(uint64(it.C)) + ", " + vh.N(uint64(it.Mode)) + ", " + vh.ListOf(it.Recs, coqRec) + ")"
+		}))
 	case "trunc":
 		return vh.App("OTrunc", c, vh.N(op.A))
 	case "ctrunc":
@@ -882,16 +1008,43 @@ type Step struct {
 	Dumps []Dump `json:"dumps,omitempty"`
 }
 
+// FilterStats summarises the negative membership filters seen during a history.
+type FilterStats struct {
+	MaxPrimaryAdds uint32 `json:"max_primary_adds"`
+	Overflow       bool   `json:"overflow"`
+}
+
 // RunHistory executes a whole history on a fresh channel namespace.
 func RunHistory(in Input) ([]Step, []KVEnt) {
+	steps, kv, _ := RunHistoryStats(in)
+	return steps, kv
+}
+
+// RunHistoryStats is RunHistory plus the filter statistics.
+func RunHistoryStats(in Input) ([]Step, []KVEnt, FilterStats) {
 	e := BeginHistory()
+	var st FilterStats
 	steps := make([]Step, len(in.Ops))
 	for i, op := range in.Ops {
 		out, dumps := e.Exec(op)
+		if in.Compact && op.K != "reopen" {
+			dumps = nil
+		}
 		steps[i] = Step{Out: out, Dumps: dumps}
+		if op.K == "append" || op.K == "capp" || op.K == "apply" {
+			c := op.C
+			if c < 0 || c >= NChans {
+				c = 0
+			}
+			_, adds, over := e.Lease(c).VerifFilterStats()
+			if adds > st.MaxPrimaryAdds {
+				st.MaxPrimaryAdds = adds
+			}
+			st.Overflow = st.Overflow || over
+		}
 	}
 	kv := e.FinalKV()
-	return steps, kv
+	return steps, kv, st
 }
 
 // CoqCase renders `(Ctor [E op out [dumps]; ...] [kv...])`.
@@ -904,7 +1057,7 @@ func CoqCase(ctor string, in Input, steps []Step, kv []KVEnt) string {
 		}
 		items[i] = vh.App("E", CoqOp(op), steps[i].Out.Coq(), vh.List(ds))
 	}
-	return vh.App(ctor, "[\n  "+strings.Join(items, ";\n  ")+"]", vh.ListOf(kv, CoqKV))
+	return vh.App(ctor, vh.B(in.Compact), "[\n  "+strings.Join(items, ";\n  ")+"]", vh.ListOf(kv, CoqKV))
 }
 
 // EmitConsts prints Gen/Consts_<id>.v: the constants of pkg/db/message the model
